@@ -55,6 +55,13 @@ def _perup_writer(fn, attr):
         return "bad", "the loop skips some usage patterns"
     if inits[0].lineno > loop.lineno:
         return "bad", "the dict is reset after it was filled"
+    outer = getattr(loop, "_parent", None)
+    while outer is not None and outer is not fn:
+        if isinstance(outer, (ast.For, ast.While)):
+            return "bad", (f"the loop over the usage patterns runs inside another loop (`{norm(outer.iter if isinstance(outer, ast.For) else outer.test)[:50]}`): "
+                           f"every pattern's entry is overwritten at each outer iteration and the last one — whose "
+                           f"order depends on a set — wins")
+        outer = getattr(outer, "_parent", None)
     v = loop.target.id
     for c in _calls(st.value):
         if isinstance(c.func, ast.Attribute) and norm(c.func.value) == "self" and c.func.attr.startswith("compute_") \
@@ -493,10 +500,15 @@ def r_local(E):
         frame_names = [n for n in names if n in assigned]
         return bool(frame_names) and all(n in converted for n in frame_names)
     assigned = {norm(n.targets[0]): n for n in ast.walk(fn) if isinstance(n, ast.Assign) and isinstance(n.targets[0], ast.Name)}
+    all_defs = {}
+    for n in ast.walk(fn):
+        if isinstance(n, ast.Assign) and isinstance(n.targets[0], ast.Name):
+            all_defs.setdefault(n.targets[0].id, []).append(n.value)
     for _ in range(4):
-        for n in ast.walk(fn):
-            if isinstance(n, ast.Assign) and isinstance(n.targets[0], ast.Name) and is_converted(n.value):
-                converted.add(n.targets[0].id)
+        for name, vals in all_defs.items():
+            # every definition of the local (both arms of an if) comes from the per-timestamp conversion
+            if all(is_converted(v) for v in vals):
+                converted.add(name)
     for r in [n for n in ast.walk(fn) if isinstance(n, ast.Return) and n.value is not None]:
         res.instances += 1
         arg = r.value.args[0] if isinstance(r.value, ast.Call) and r.value.args else r.value
@@ -1055,4 +1067,106 @@ def r_zerocut(E):
                 res.samples.append({"site": f"{rel}:{n.lineno} {q}", "under": [norm(t)[:50] for t in true] +
                                     ["not " + norm(t)[:46] for t in false]})
     res.floor = 5     # 7 conditional empty values on the pinned tree
+    return res
+
+
+# ---------------------------------------------------------------------------------------------- R-LASTWINS
+@rule("R-LASTWINS")
+def r_lastwins(E):
+    pm = E.pm
+    res = RuleResult("R-LASTWINS", "inside a loop over a collection whose order derives from a set / the link registry, no "
+                                   "store overwrites one and the same location with a value that changes from one "
+                                   "iteration to the next (the last element — an accident of hashing — would win)")
+    hashy = _hash_ordered_props(pm)
+    for mod, (rel, tree, src) in sorted(pm.modules.items()):
+        if not (rel.startswith("efootprint/core") or rel.startswith("efootprint/builders")):
+            continue
+        for L in [n for n in ast.walk(tree) if isinstance(n, ast.For)]:
+            it = L.iter
+            if isinstance(it, ast.Call) and isinstance(it.func, ast.Name) and it.func.id in ("list", "enumerate") and it.args:
+                it = it.args[0]
+            hot = (isinstance(it, ast.Attribute) and it.attr in hashy) or \
+                  (isinstance(it, ast.Call) and isinstance(it.func, ast.Name) and it.func.id in ("set", "frozenset"))
+            if not hot:
+                continue
+            res.instances += 1
+            fn = L
+            while fn is not None and not isinstance(fn, ast.FunctionDef):
+                fn = getattr(fn, "_parent", None)
+            cls = fn
+            while cls is not None and not isinstance(cls, ast.ClassDef):
+                cls = getattr(cls, "_parent", None)
+            q = (f"{cls.name}.{fn.name}" if cls is not None else fn.name) if fn is not None else "<module>"
+            var = {x.id for x in ast.walk(L.target) if isinstance(x, ast.Name)}
+            # locals derived from the loop variable inside the body
+            for _ in range(4):
+                for n in ast.walk(L):
+                    if isinstance(n, ast.Assign) and any(isinstance(x, ast.Name) and x.id in var for x in ast.walk(n.value)):
+                        for t in n.targets:
+                            var |= {x.id for x in ast.walk(t) if isinstance(x, ast.Name) and isinstance(x.ctx, ast.Store)}
+                    if isinstance(n, (ast.For, ast.comprehension)) and n is not L and any(
+                            isinstance(x, ast.Name) and x.id in var for x in ast.walk(n.iter)):
+                        var |= {x.id for x in ast.walk(n.target) if isinstance(x, ast.Name)}
+            for n in ast.walk(L):
+                if not isinstance(n, ast.Assign):
+                    continue
+                for t in n.targets:
+                    if not isinstance(t, (ast.Subscript, ast.Attribute)):
+                        continue
+                    tnames = {x.id for x in ast.walk(t) if isinstance(x, ast.Name)}
+                    vnames = {x.id for x in ast.walk(n.value) if isinstance(x, ast.Name)}
+                    base = t
+                    while isinstance(base, (ast.Subscript, ast.Attribute)):
+                        base = base.value
+                    # a container created inside the loop body is a fresh location at every iteration
+                    fresh = isinstance(base, ast.Name) and any(
+                        isinstance(a, ast.Assign) and any(isinstance(tt, ast.Name) and tt.id == base.id for tt in a.targets)
+                        for a in ast.walk(L))
+                    if not (tnames & var) and (vnames & var) and not fresh:
+                        res.findings.append(Finding(
+                            "R-LASTWINS", f"{q} :: {norm(t)[:60]} in loop over {norm(L.iter)[:40]}",
+                            f"{q}: `{norm(n)[:80]}` is executed for every element of `{norm(L.iter)[:40]}` (an order that "
+                            f"depends on hashing / random ids); the location does not depend on the element but the value "
+                            f"does, so the result is whatever element happens to come last", rel, n.lineno, q))
+    res.floor = 12     # 17 loops over hash-ordered collections in model code on the pinned tree
+    return res
+
+
+# ---------------------------------------------------------------------------------------------- R-TRUNC
+@rule("R-TRUNC")
+def r_trunc(E):
+    pm = E.pm
+    res = RuleResult("R-TRUNC", "in the hourly-series builders a number of hours / periods is never obtained by truncating "
+                                "(int(), math.floor, //) the float of a pint unit conversion (`.to(u.hour).magnitude`): "
+                                "conversion noise (1 day + 7 hours = 30.999999999999996 h) drops the last hour; the count "
+                                "goes through timedelta (microsecond rounding) or an explicit round()")
+    from ..astutil import fully_expanded
+    rel, tree = pm.module_tree(TB)
+    for fn in [n for n in tree.body if isinstance(n, ast.FunctionDef)]:
+        for c in _calls(fn):
+            trunc = (isinstance(c.func, ast.Name) and c.func.id == "int") or norm(c.func) in ("math.floor", "np.floor")
+            if not trunc or not c.args:
+                continue
+            a = fully_expanded(c.args[0], fn)
+            t = norm(a)
+            if ".to(" not in t or ".magnitude" not in t and ".m" not in t:
+                continue
+            res.instances += 1
+            absorbed = "timedelta(" in t or "round(" in t
+            if not absorbed:
+                res.findings.append(Finding(
+                    "R-TRUNC", f"{fn.name} :: {norm(c)[:80]}",
+                    f"{fn.name} truncates a converted duration (`{norm(c)[:70]}`): a span that is a whole number of hours "
+                    f"but whose conversion is a hair below it (1 day + 7 hours -> 30.999999999999996 h) loses its last "
+                    f"hour", rel, c.lineno, fn.name))
+            elif len(res.samples) < 3:
+                res.samples.append({"function": fn.name, "count": norm(c)[:90], "verdict": "noise absorbed before truncation"})
+        # floor division of a converted duration
+        for b in [n for n in ast.walk(fn) if isinstance(n, ast.BinOp) and isinstance(n.op, ast.FloorDiv)]:
+            t = norm(fully_expanded(b, fn))
+            if ".to(" in t and ".magnitude" in t:
+                res.instances += 1
+                res.findings.append(Finding("R-TRUNC", f"{fn.name} :: {norm(b)[:80]}", f"{fn.name} floor-divides a converted "
+                                            f"duration (`{norm(b)[:70]}`)", rel, b.lineno, fn.name))
+    res.floor = 1     # 3 sites on the pinned tree; one shared helper would be 1
     return res
